@@ -372,6 +372,7 @@ class RefInst:
                   "members": [{"c": c} for c in self.guard_cbids(t)],
                   "kw": er.get("kwargs", {}), "args": er.get("args", [])}
             ex["items"].append(gi)
+            gi["order"] = self.guard_order(t, ev)
             self._guard_faults(t, gi)
             if not self.enabled(t):
                 continue
@@ -404,6 +405,39 @@ class RefInst:
         if n is not None:
             raise RefRaise({"cls": "SimStorageError", "sim_id": ["storage", self.model_tag, self.epoch, 0, n]})
         self.state = dst
+
+    def guard_order(self, t, ev):
+        """The guard callbacks of candidate ``t`` in the order both engines evaluate them -- entries in
+        declaration order (``cond`` then ``unless``), stopping at the first that fails -- or None outside
+        the simple case (plain names with one provider each, no late listeners, no property / attribute
+        guards, names not shared with another candidate of the same event)."""
+        if self.late:
+            return None
+        def names_of(t_):
+            return {n_ for k_ in ("cond", "unless") for e in t_.get(k_, []) for n_ in _expr_names(e)}
+
+        names = names_of(t)
+        for t2 in self.rp.trans_from[self.state]:
+            if t2["idx"] != t["idx"] and ev in t2["events"]:
+                if names & names_of(t2):
+                    return None
+        seq = []
+        sv = self.rp.value_of[self.state]
+        for k_, want in (("cond", True), ("unless", False)):
+            for e in t.get(k_, []):
+                if not _is_name(e):
+                    return None
+                provs = self.providers(e)
+                if len(provs) != 1:
+                    return None
+                meta = self.rp.prog["cbs"][provs[0]]
+                if meta.get("prop") or meta.get("inst_attr") is not None:
+                    return None
+                full = self.rp.full(provs[0])
+                seq.append(full)
+                if bool(self.ref.guard_value(full, self.epoch, sv)) != want:
+                    return seq
+        return seq
 
     def _guard_faults(self, t, gi):
         """An injected exception in a guard (only generated for 'solo' guards, see C04)."""
